@@ -45,12 +45,15 @@ structure St where
   xGhost : Bool := false                       -- X's tunnel was closed at A and then re-created from the re-delivered stage-0 (X itself still uses the old one)
   xPending : Bool := false                     -- A has a pending handshake for X
   recDis : Bool := false                       -- the Terminal relay record on A's tunnel with R is Disestablished
+  front : List (Nat × String) := []            -- (receiver*10+peer) ↦ most recently learned underlay address (default "own")
+  lhRoam : Bool := false                       -- the last op's roaming changed the learned-address list
   deriving Repr
 
 def lookupS (l : List (Nat × String)) (k : Nat) : Option String := (l.find? (·.1 == k)).map (·.2)
 def setS (l : List (Nat × String)) (k : Nat) (v : String) : List (Nat × String) := (k, v) :: l.filter (·.1 != k)
 
 def St.curOf (s : St) (rx p : Nat) : String := (lookupS s.cur (rx * 10 + p)).getD "own"
+def St.frontOf (s : St) (rx p : Nat) : String := (lookupS s.front (rx * 10 + p)).getD "own"
 
 structure SymHdr where
   ver : Nat := 1
@@ -111,7 +114,7 @@ def render (s : St) (rx sender : Nat) (src : String) (effs : List Effect) (rsPee
   let inn := effs.filterMap (fun e => match e with | .markIn p => some (peerName p) | _ => none)
   let inn := inn.filter (fun p => !del.contains p)
   let used := (effs.filter (fun e => match e with | .relayUsed _ => true | .forward _ _ => true | _ => false)).length
-  let lh := !roam.isEmpty || !del.isEmpty || forceLh
+  let lh := (!roam.isEmpty && s.lhRoam) || !del.isEmpty || forceLh
   let del := del ++ extraDel
   s!"tun={tun} out={setStr (sortStr out)} del={setStr (sortStr (dedup del))} roam={setStr (sortStr roam)} in={setStr (sortStr (dedup inn))} win={setStr (sortStr (dedup inn))} rs={setStr rsPeers} lh={boolStr lh} pend={boolStr pend} used={used + extraUsed} seen=0 xr=0"
 
@@ -159,11 +162,13 @@ def kindInfo : String → Option (Nat × Nat × SymHdr × Option SymHdr)
 /-- apply the state changes the effects imply. -/
 def advance (s : St) (rx : Nat) (src : String) (effs : List Effect) : St :=
   effs.foldl (fun s e => match e with
-    | .roam p => { s with lastRoam := setS s.lastRoam (rx * 10 + p) (s.curOf rx p), cur := setS s.cur (rx * 10 + p) src }
+    | .roam p => { s with lastRoam := setS s.lastRoam (rx * 10 + p) (s.curOf rx p), cur := setS s.cur (rx * 10 + p) src,
+                          -- SetRemote → LearnRemote: the learned list changes unless this address is already its head
+                          lhRoam := s.lhRoam || s.frontOf rx p != src, front := setS s.front (rx * 10 + p) src }
     | .close p => if rx == 0 then { s with live := s.live.filter (· != p), recDis := s.recDis || p == 3 } else s
     | .recvErrorClose p => if rx == 0 then { s with live := s.live.filter (· != p) } else s
     | .control _ => { s with ctrlDone := true }
-    | _ => s) s
+    | _ => s) { s with lhRoam := false }
 
 /-- property oracle on the implementation's answer: when no level of the datagram is authentic, the
 receiver's state must not change and nothing may be delivered or sent, except a recv_error reply
@@ -301,6 +306,8 @@ def evalHsdupB (s : St) (src mode : String) (impl : String) : St × Out :=
     let reached := effs.any (fun e => match e with | .handshakeIn => true | _ => false)
     let effs' := if reached && moved then effs ++ [Effect.roam 1] else effs
     let s' := advance s 0 src effs'
+    -- the fresh hostinfo of the duplicate handshake learns the source address (shared remote list)
+    let s' := if reached then { s' with front := setS s'.front 1 src } else s'
     let node := if src == "own" then "1" else "-1"
     let extra := if reached then (if moved then ["4/0>" ++ node] else []) ++ ["0/0>" ++ node] else []
     let model := maskLh (render s' 0 1 src effs' [] extra)
